@@ -1,0 +1,65 @@
+//go:build verif
+
+package modhash
+
+// Contracts for the deductive verifier in /verif (govc); comments only. Properties C13 and C14.
+//
+// Representation invariant of a ModHash selector: every entry of the weighted cycle is an index into the
+// member list, the member list is small enough for the weight computation, and the map exists.
+//@ pred mhInv(m) = m != nil && m.mapValues != nil && len(m.endpoints) <= 16777216 && len(m.staticWeightRouterCache) <= 1694498817 && (forall j {m.staticWeightRouterCache[j]} :: (0 <= j && j < len(m.staticWeightRouterCache)) ==> (0 <= m.staticWeightRouterCache[j] && m.staticWeightRouterCache[j] < len(m.endpoints)))
+//
+//@ func New
+//@   allocates
+//@   ensures [C13] mhInv(result) && fresh(result) && len(result.endpoints) == 0 && result.enableWeight == enableWeight
+//@   safety [C13]
+//
+//@ func (*ModHash).Select
+//@   requires mhInv(m) && msg != nil
+//@   ensures [C13] (len(m.endpoints) == 0) == (result1 != nil)
+//@   ensures [C14] (len(m.endpoints) > 0 && len(m.staticWeightRouterCache) == 0) ==> result0 == m.endpoints[msgHash(msg) % len(m.endpoints)]
+//@   ensures [C14] (len(m.endpoints) > 0 && len(m.staticWeightRouterCache) != 0) ==> result0 == m.endpoints[m.staticWeightRouterCache[msgHash(msg) % len(m.staticWeightRouterCache)]]
+//@   safety [C13]
+//
+//@ func (*ModHash).reBuildLocked
+//@   requires m != nil && m.mapValues != nil && len(m.endpoints) <= 16777216
+//@   modifies m.staticWeightRouterCache
+//@   allocates
+//@   ensures [C13] mhInv(m)
+//@   safety [C13]
+//
+//@ func (*ModHash).addLocked
+//@   requires m != nil && m.mapValues != nil && len(m.endpoints) < 16777216 && (cap(m.endpoints) == 0 || allocated(m.endpoints))
+//@   modifies m.endpoints, elems(m.endpoints), mapcells(m.mapValues)
+//@   allocates
+//@   ensures [C13] err != nil ==> (len(m.endpoints) == old(len(m.endpoints)) && hdr(m.endpoints) == old(hdr(m.endpoints)))
+//@   ensures [C13] err == nil ==> (len(m.endpoints) == old(len(m.endpoints)) + 1 && m.endpoints[old(len(m.endpoints))] == ep)
+//@   ensures [C13] objof(m.endpoints) == old(objof(m.endpoints)) || fresh(m.endpoints)
+//@   ensures m.mapValues != nil
+//@   safety [C13]
+//
+//@ func (*ModHash).Add
+//@   requires mhInv(m) && len(m.endpoints) < 16777216 && (cap(m.endpoints) == 0 || allocated(m.endpoints))
+//@   modifies m.endpoints, elems(m.endpoints), mapcells(m.mapValues), m.staticWeightRouterCache
+//@   allocates
+//@   ensures [C13] result == nil ==> mhInv(m)
+//@   safety [C13]
+//
+//@ func (*ModHash).Refresh
+//@   requires m != nil && len(eps) <= 16777216
+//@   modifies m.mapValues, m.endpoints, m.staticWeightRouterCache
+//@   allocates
+//@   ensures [C13] mhInv(m)
+//@   ensures [C13] cap(m.endpoints) == 0 || fresh(m.endpoints)
+//@   ensures [C13] len(m.endpoints) <= len(eps)
+//@   loop 0 invariant m != nil && m.mapValues != nil && fresh(m.mapValues) && len(m.endpoints) <= rangeindex + 1 && (cap(m.endpoints) == 0 || fresh(m.endpoints)) && (objof(m.endpoints) == objof(atentry(0, m.endpoints)) || loopfresh(0, m.endpoints))
+//@   loop 0 modifies m.endpoints, elems(m.endpoints), mapcells(m.mapValues)
+//@   safety [C13]
+//
+//@ func (*ModHash).Remove
+//@   requires mhInv(m) && (cap(m.endpoints) == 0 || allocated(m.endpoints))
+//@   modifies m.endpoints, elems(m.endpoints), mapcells(m.mapValues), m.staticWeightRouterCache
+//@   allocates
+//@   ensures [C13] mhInv(m)
+//@   ensures [C13] len(m.endpoints) <= old(len(m.endpoints))
+//@   loop 0 invariant m != nil && m.mapValues != nil && hdr(m.endpoints) == old(hdr(m.endpoints))
+//@   safety [C13]
